@@ -1,6 +1,6 @@
 (* C14 correspondence: observations of the real pkg/util/wait (fastBackoffImpl, BackoffUntil), of the
    config defaulting, and of whole frps/frpc processes (liveness driver) against the models. *)
-From FRP Require Export Corr.Common Model.Backoff Model.Heartbeat Model.Relogin gen.GenBackoffOpts.
+From FRP Require Export Corr.Common Model.Backoff Model.Heartbeat Model.Relogin Model.CliDispatch gen.GenBackoffOpts Proofs.GenCliDispatch.
 Open Scope Z_scope.
 
 Definition mkopts (d fn fd jn jd mx init fc fdel fjn fjd fw : Z) : fb_opts :=
@@ -27,6 +27,9 @@ Inductive case :=
 | CCliWatch (I T : Z) (pongs : list Z) (pong_err_at closed_at until slack : Z)
 (* [exit_first] = the client's LoginFailExit; [alive] = the real frpc is still running at the end *)
 | CRelogin (exit_first : bool) (cfg : list (Z * Z)) (evs : list rl_ev) (sessions : list (list (Z * Z))) (alive : bool)
+(* what arrived on the client's control connection (instant, message, how long its handler's body took: for
+   ReqWorkConn the observed duration of the hanging dial), and when the client closed the session *)
+| CCliStarve (iv T : Z) (arrivals : list carrival) (closed_at until slack : Z)
 (* gaps (ms) between consecutive failed login attempts of one loopLoginUntilSuccess(max_interval) *)
 | CLoginGaps (max_interval : Z) (gaps : list Z) (slack : Z).
 
@@ -198,6 +201,16 @@ Fixpoint check_gaps (o : fb_opts) (st_lo st_hi : bu_state) (gaps : list Z) (slac
       end
   end.
 
+Definition AR (at_ : Z) (m : cmsg) (block : Z) : carrival := {| ca_at := at_; ca_msg := m; ca_block := block |}.
+
+Definition check_cli_starve (iv T : Z) (arrivals : list carrival) (closed_at until slack : Z) : Z :=
+  match hb_cli_close_time iv T (hb_cli_init 0) (cd_history gen_cli_async arrivals (until + 2 * hb_period)) with
+  | None => if closed_at <? 0 then 0 else 71      (* the client closed a session the model keeps open: a live server torn down *)
+  | Some m =>
+      if closed_at <? 0 then (if m + hb_period + slack <? until then 72 else 0)
+      else if (m - hb_period - slack <=? closed_at) && (closed_at <=? m + hb_period + slack) then 0 else 73
+  end.
+
 Definition check_case (c : case) : Z :=
   match c with
   | CBackoff o calls => check_calls o fb_init calls
@@ -215,6 +228,7 @@ Definition check_case (c : case) : Z :=
   | CSrvWatch T pings invalid closed_at until slack => check_srv_watch T pings invalid closed_at until slack
   | CCliWatch iv T pongs pe closed_at until slack => check_cli_watch iv T pongs pe closed_at until slack
   | CRelogin ef cfg evs sessions alive => check_relogin ef cfg evs sessions alive
+  | CCliStarve iv T arrivals closed_at until slack => check_cli_starve iv T arrivals closed_at until slack
   | CLoginGaps mx gaps slack =>
       match bu_start (gen_login_opts mx) 0 0 with
       | Some st => check_gaps (gen_login_opts mx) st st gaps slack
